@@ -151,12 +151,16 @@ def part_b(chk, n):
             os.makedirs(sub)
             cl = cluster.FakeCluster(os.path.join(root, "cl"))
             ops, toks = [], []
-            for _ in range(rng.randint(3, 8)):
-                k = rng.choice(keys)
+            # few keys per history (one of them usually a key that only has a built-in default) and values that are
+            # EQUAL as Python objects although they are different settings (1 / true, 0 / no / false, 10 / 1_0 / " 10")
+            hkeys = [rng.choice(["clean_logs", "use_spec_hashes"])] + rng.sample(keys, 2) if h % 2 else rng.sample(keys, 3)
+            family = rng.choice([["1", "true", "yes", "01", "+1", "1"], ["0", "no", "false", "00", "-0", "0"], ["10", "1_0", " 10", "10 ", "010"]])
+            for _ in range(rng.randint(4, 9)):
+                k = rng.choice(hkeys)
                 r = rng.random()
                 cwd = rng.choice([proj, sub])
                 if r < 0.5:
-                    v = rng.choice([x for x in VALUES if "\n" not in x and "\t" not in x])
+                    v = rng.choice(family) if h % 2 and rng.random() < 0.7 else rng.choice([x for x in VALUES if "\n" not in x and "\t" not in x])
                     code, out, err = cluster.run_gwf(["-b", "slurm", "config", "set", "--", k, v], cwd, cl)
                     ops.append(("s", k, v)); toks.append("s:%s:%s" % (hx(k), hx(v)))
                     got = "ok" if code == 0 else "EXIT%d %s" % (code, err[-200:])
@@ -343,7 +347,7 @@ def run(chk):
         if i != m:
             chk.violation({"kind": "fileconfig"}, common.mismatch_replay("history", {"ops": ops}, i, m))
     part_a(chk, 5000 if chk.tier == "quick" else 200000)
-    part_b(chk, 25 if chk.tier == "quick" else 400)
+    part_b(chk, 40 if chk.tier == "quick" else 600)
     part_c(chk)
     if len(chk.distinct) < 300:
         raise common.Broken("degenerate generator")
